@@ -18,6 +18,10 @@ CHECKS = {
    text="FeelType.tla defines equivalence, conformance, type-of and coercion; TLC checks the preorder/equivalence laws on the specification's own relations over the whole universe (10 simple types closed under list/range/context/function to depth 2; 103 types quick, 295 thorough), and then evaluates the same laws, the variance clauses (as equalities between matrix entries), pointwise agreement with DMN 10.3.2.9 and the coercion rules over the full matrices observed from is_equivalent / is_conformant / coerced (all pairs, all triples for transitivity, universe x value pool for coercion).",
    note="Trusts TLC, FeelType.tla's transcription of DMN 10.3.2.9, and the harness's type/value builders.",
    technique="TLA+ spec + TLC: laws model-checked on the spec and evaluated over exhaustive observed matrices"),
+ "C02": dict(cat="exploration", design="DESIGN.md §5 C02",
+   text="Decimal.tla transcribes the General Decimal Arithmetic rules (exact result, round-half-even to 34 digits, range check) over Bignum.tla as exact acceptors; TLC enumerates boundary operand classes (coefficient patterns x exponents at the subnormal/overflow edges, +-34/35 orders apart, ties, cancellation) which the harness crosses for every operator and numeric built-in, plus seeded random operands over the full range; every result is read through the raw decimal128 encoding (hook H2) and judged by TLC. Exploration level: the operand space is sampled by classes, not exhausted.",
+   note="exp/log/non-integer powers are checked for range, sign and finiteness only (no accuracy enclosure yet). Trusts TLC, Bignum/Decimal.tla (self-tested against CPython's decimal on 1060 cases incl. 1-ulp neighbours), decQuadFromString/decQuadToBCD for operand construction and observation.",
+   technique="TLA+ executable specification of decimal128 rounding (Bignum acceptors) judging traces of the real evaluator; operand classes enumerated by TLC"),
 }
 NOT_YET = {}
 props = [json.loads(l) for l in open('/verif/properties.jsonl')]
